@@ -104,6 +104,27 @@ def twin_gen(rng):
     return ProbeGrammar(rng, variants, [], outputs)
 
 
+def shared_gen(rng):
+    """a definition that contains a command, referenced from several places at different `||` levels / inside and
+    outside words"""
+    outputs = {0: rng.choice(["alpha\nbeta\n", "k1\nk2\tdescr\n", "lima\n"]), 1: "one\n"}
+    body = rng.choice([("cmd", '__probe 0 "$1" "$2"'), ("alt", [("lit", "fixed", None), ("cmd", '__probe 0 "$1" "$2"')]),
+                       ("seq", [("cmd", '__probe 0 "$1" "$2"'), ("lit", "then", None)])])
+    defs = [("X", None, body)]
+    ref = ("nt", "X")
+    shapes = [
+        [("seq", [("lit", "first", None), ref]), ("seq", [("lit", "second", None), ("fb", [("lit", "lit", None), ref])])],
+        [("fb", [("seq", [("lit", "a", None), ref]), ("seq", [("lit", "b", None), ("fb", [("lit", "c", None), ("lit", "d", None), ref])])])],
+        [("seq", [("lit", "one", None), ("fb", [("lit", "x", None), ref])]), ("seq", [("lit", "two", None), ("fb", [("lit", "y", None), ("lit", "z", None), ref])]),
+         ("seq", [("lit", "three", None), ref])],
+        [("seq", [("opt", ref), ("lit", "mid", None), ("fb", [("cmd", '__probe 1 "$1" "$2"'), ref])])],
+    ]
+    variants = rng.choice(shapes)
+    if rng.random() < 0.5:
+        variants = list(reversed(variants))
+    return ProbeGrammar(rng, variants, defs, outputs)
+
+
 def vocabulary(pg):
     """literal texts, command candidates, and a few foreign / glob-looking words"""
     lits = []
